@@ -570,3 +570,108 @@ def check_len_guards(ctx, repo: Repo, pid: str, module_names: List[str], report_
     if not bad:
         ctx.ok("LENGUARD", f"{pid}.lenguard", f"every length-guarded call ({sites} sites) admits only sequences long enough for the constant "
                "subscripts of its callee (positive control matched)", ", ".join(module_names)[:160])
+
+
+# ---------------------------------------------------------------------------------------------------------------------------
+# FWDCOLLIDE: a lazily created attribute looked up through a forwarding __getattr__
+
+FC_CONTROL = '''
+class Inner:
+    def __init__(self):
+        self.t = 3
+    def __len__(self):
+        if getattr(self, "_n", None) is None:
+            self._n = self.t * 2
+        return self._n
+class Outer:
+    def __init__(self):
+        self.inner = Inner()
+    def __getattr__(self, name):
+        return getattr(self.inner, name)
+    def __len__(self):
+        if getattr(self, "_n", None) is None:
+            self._n = 5 * len(self.inner)
+        return self._n
+    def other(self):
+        if getattr(self, "_m", None) is None:
+            self._m = 1
+        return self._m
+'''
+
+
+def _forward_collisions(trees):
+    """-> (lazy lookups examined, [(where, relpath, text, msg)])"""
+    classes = {}
+    for rel, tree in trees:
+        for c in [n for n in ast.walk(tree) if isinstance(n, ast.ClassDef)]:
+            classes[c.name] = (rel, c)
+
+    def stored_attrs(c, init_only=False):
+        out = set()
+        for f in [n for n in c.body if isinstance(n, ast.FunctionDef) and (not init_only or n.name == "__init__")]:
+            for n in ast.walk(f):
+                if isinstance(n, (ast.Assign, ast.AugAssign, ast.AnnAssign)):
+                    for t in (n.targets if isinstance(n, ast.Assign) else [n.target]):
+                        for x in ast.walk(t):
+                            if isinstance(x, ast.Attribute) and isinstance(x.value, ast.Name) and x.value.id == "self" and isinstance(x.ctx, ast.Store):
+                                out.add(x.attr)
+        return out
+    seen, bad = 0, []
+    for cname, (rel, c) in classes.items():
+        ga = [n for n in c.body if isinstance(n, ast.FunctionDef) and n.name == "__getattr__"]
+        if not ga:
+            continue
+        # return getattr(self.<D>, name)
+        dele = None
+        for r in ast.walk(ga[0]):
+            if isinstance(r, ast.Return) and isinstance(r.value, ast.Call) and isinstance(r.value.func, ast.Name) and r.value.func.id == "getattr" and \
+                    len(r.value.args) >= 2 and isinstance(r.value.args[0], ast.Attribute) and isinstance(r.value.args[0].value, ast.Name) and \
+                    r.value.args[0].value.id == "self":
+                dele = r.value.args[0].attr
+        if dele is None:
+            continue
+        # class of the delegate from __init__
+        dcls = None
+        for f in [n for n in c.body if isinstance(n, ast.FunctionDef) and n.name == "__init__"]:
+            for n in ast.walk(f):
+                if isinstance(n, ast.Assign) and len(n.targets) == 1 and isinstance(n.targets[0], ast.Attribute) and n.targets[0].attr == dele and \
+                        isinstance(n.value, ast.Call) and isinstance(n.value.func, ast.Name) and n.value.func.id in classes:
+                    dcls = n.value.func.id
+        if dcls is None:
+            continue
+        own_init = stored_attrs(c, init_only=True)
+        dele_all = stored_attrs(classes[dcls][1])
+        for f in [n for n in c.body if isinstance(n, ast.FunctionDef)]:
+            for n in ast.walk(f):
+                if isinstance(n, ast.Call) and isinstance(n.func, ast.Name) and n.func.id in ("getattr", "hasattr") and len(n.args) >= 2 and \
+                        isinstance(n.args[0], ast.Name) and n.args[0].id == "self" and isinstance(n.args[1], ast.Constant) and isinstance(n.args[1].value, str):
+                    a = n.args[1].value
+                    if a in own_init:
+                        continue
+                    seen += 1
+                    if a in dele_all:
+                        bad.append((f"{rel}:{cname}.{f.name}", rel, ast.unparse(n),
+                                    f"{cname}.__getattr__ forwards unknown names to self.{dele} ({dcls}), and {dcls} stores an attribute `{a}` of its own"))
+    return seen, bad
+
+
+def check_forward_collisions(ctx, repo: Repo, pid: str, module_names: List[str], report_modules=None):
+    """FWDCOLLIDE: `getattr(self, "x", None)` on an object whose class forwards unknown attributes (`__getattr__`) does not ask "have I
+    set x yet": while x is unset on the object itself the lookup is answered by the delegate.  If the delegate keeps an attribute of the
+    same name, the object silently adopts the delegate's value (here: a full grid taking the position grid's cached length)."""
+    s_, b_ = _forward_collisions([("<control>", ast.parse(FC_CONTROL))])
+    if s_ != 2 or len(b_) != 1 or "_n" not in b_[0][2]:
+        ctx.inconclusive("FWDCOLLIDE", f"{pid}.fwdcollide.control", "positive control of the forwarding-collision rule did not match", "<control>", witness=str((s_, b_)))
+        return
+    trees = [(repo.module(mn).relpath, repo.module(mn).tree) for mn in module_names]
+    seen, bad = _forward_collisions(trees)
+    rep = {repo.module(m).relpath for m in (report_modules or module_names) if m in repo.modules}
+    bad = [b for b in bad if b[1] in rep]
+    ctx.instance("FWDCOLLIDE", seen + 1)
+    for where, rel, text, msg in bad:
+        ctx.violate("FWDCOLLIDE", f"{pid}.fwdcollide", "a lazily created attribute is looked up with getattr/hasattr on an object that forwards unknown "
+                    "attributes to a delegate which stores an attribute of the same name: until the object has set its own value it reads the "
+                    "delegate's (the result depends on which of the two objects was asked first)", where, text, witness=msg)
+    if not bad:
+        ctx.ok("FWDCOLLIDE", f"{pid}.fwdcollide", f"no lazily created attribute of a forwarding class ({seen} lookups) collides with an attribute of its "
+               "delegate (positive control matched)", ", ".join(module_names)[:160])
